@@ -5,6 +5,8 @@
 //! `xb` (entry j under validator j), all computed by the real code when the line is generated):
 //!   validate <eh>                               → `ok` | `err <kind>`
 //!   mutate fam=<family> idx=<k> b.<eh> m.<eh>   → `<verdict of b> | <verdict of m>`
+//!   vcl h=<height> <eh>                         → `ok` | `err <kind>`   (S9: `verify_commit_light` called
+//!       directly: `eh.validator_set.verify_commit_light(&eh.header.chain_id, &h, &eh.commit)`)
 //! `run` rebuilds the headers and calls the real `ExtendedHeader::validate`.
 #[path = "../consensus_e.rs"]
 mod consensus_e;
@@ -441,6 +443,50 @@ fn malformed(rng: &mut Rng, c: &Case) -> Vec<(ExtendedHeader, bool, &'static str
     out
 }
 
+/// S9: inputs for `verify_commit_light` called directly.  Inside `validate` two of its exits are
+/// shadowed (`Commit::validate_basic` rejects an entry without signature first, the commit-height
+/// comparison of `validate` precedes the one at validator_set.rs:62), so `validate` ops never reach them.
+fn vcl_cases(rng: &mut Rng, c: &Case) -> Vec<(u64, ExtendedHeader, &'static str)> {
+    let eh = &c.eh;
+    let h = eh.header.height.value();
+    let mut out = vec![(h, eh.clone(), "vcl/honest")];
+    let strip = |m: &mut ExtendedHeader, k: usize| match &mut m.commit.signatures[k] {
+        CommitSig::BlockIdFlagCommit { signature, .. } | CommitSig::BlockIdFlagNil { signature, .. } => *signature = None,
+        _ => {}
+    };
+    let commits: Vec<usize> = (0..eh.commit.signatures.len()).filter(|&k| eh.commit.signatures[k].is_commit()).collect();
+    let nils: Vec<usize> = (0..eh.commit.signatures.len()).filter(|&k| eh.commit.signatures[k].is_nil()).collect();
+    if let Some(&k) = commits.first() {
+        // the first block-commit entry is always reached before the tally is complete
+        let mut m = eh.clone();
+        strip(&mut m, k);
+        out.push((h, m, "vcl/first-commit-entry-without-signature"));
+        // any block-commit entry: after the 2/3 tally was reached the loop has already returned
+        let mut m = eh.clone();
+        strip(&mut m, *rng.pick(&commits));
+        out.push((h, m, "vcl/some-commit-entry-without-signature"));
+        let mut m = eh.clone();
+        strip(&mut m, *commits.last().unwrap());
+        out.push((h, m, "vcl/last-commit-entry-without-signature"));
+    }
+    if !nils.is_empty() {
+        let mut m = eh.clone();
+        strip(&mut m, *rng.pick(&nils));
+        out.push((h, m, "vcl/nil-entry-without-signature"));
+    }
+    for hh in [h + 1, h - 1, 0, h + 1000] {
+        if hh != h {
+            out.push((hh, eh.clone(), "vcl/height-arg-differs"));
+        }
+    }
+    let mut m = eh.clone();
+    m.commit.height = (h + 1).try_into().unwrap();
+    out.push((h, m.clone(), "vcl/commit-height-differs"));
+    // both moved together: heights agree, the votes were signed for another height
+    out.push((h + 1, m, "vcl/both-heights-moved"));
+    out
+}
+
 impl Prop for C01 {
     fn id(&self) -> &'static str {
         "C01"
@@ -454,7 +500,9 @@ impl Prop for C01 {
          validator power (raw and rebuilt set), commit block hash, part-set header, commit height, round, and signature bit / timestamp / address of \
          EVERY commit entry) as a `mutate` op that validates original and mutant; plus a malformed stream (block version, height 0, last_block_id \
          presence, app versions 0/8/100, no signatures, zero block id, entry without signature, no proposer, empty set, commit shorter/longer, signers \
-         cut down to <= 2/3, DAH width 1/0/rows≠cols/odd/maximum/maximum+1, data_hash None).  Non-trivial = all cases; distinct = distinct (op, result) lines."
+         cut down to <= 2/3, DAH width 1/0/rows≠cols/odd/maximum/maximum+1, data_hash None); plus, per header, `verify_commit_light` called \
+         directly (`vcl`): honest, first / some / last block-commit entry and a nil entry with `signature: None`, height argument ±1 / 0 / +1000, \
+         commit height +1, both moved.  Non-trivial = all cases; distinct = distinct (op, result) lines."
     }
     fn gen_ops(&mut self, rng: &mut Rng, tier: Tier, out: &mut Emitter) {
         let cases = if tier == Tier::Thorough { 400 } else { 36 };
@@ -467,6 +515,9 @@ impl Prop for C01 {
             }
             for (m, raw, tag) in malformed(rng, &c) {
                 out.op(format!("validate {}", fmt_eh_full(&m, "", raw)), tag, true);
+            }
+            for (h, m, tag) in vcl_cases(rng, &c) {
+                out.op(format!("vcl h={h} {}", fmt_eh_full(&m, "", false)), tag, true);
             }
         }
         // the repository's own generator (single validator, real empty-square / random DAHs)
@@ -486,6 +537,17 @@ impl Prop for C01 {
                 Some(eh) => validate_str(&eh),
                 None => "bad-op".into(),
             },
+            "vcl" => match (arg_u64(line, "h").and_then(|h| tendermint::block::Height::try_from(h).ok()), parse_eh_full(line, "")) {
+                (Some(h), Some(eh)) => {
+                    use celestia_types::verif::ValidatorSetExt;
+                    let v = match eh.validator_set.verify_commit_light(&eh.header.chain_id, &h, &eh.commit) {
+                        Ok(()) => "ok".to_string(),
+                        Err(e) => format!("err {}", err_kind(&e)),
+                    };
+                    format!("{v} {}", oracle_words(&eh, ""))
+                }
+                _ => "bad-op".into(),
+            },
             "mutate" => match (parse_eh_full(line, "b."), parse_eh_full(line, "m.")) {
                 (Some(b), Some(m)) => format!("{} | {}", validate_str(&b), validate_str(&m)),
                 _ => "bad-op".into(),
@@ -494,7 +556,9 @@ impl Prop for C01 {
         }
     }
     fn result_tag(&self, _line: &str, result: &str) -> Option<String> {
-        Some(result.replace(' ', "_").chars().take(60).collect())
+        // verdict(s) only: the oracle words (`xh=…`, hashes of that very header) would make every result a tag of its own
+        let v: Vec<&str> = result.split(" | ").map(|seg| seg.split(" xh=").next().unwrap_or("")).collect();
+        Some(v.join(" | ").replace(' ', "_").chars().take(60).collect())
     }
 }
 
